@@ -191,24 +191,31 @@ def prove(pid):
         res["log"] = "missing " + fn
         return res
     ok, log = coq_make()
-    vo = os.path.join(COQ, fn + "o")
-    # force recompile of the property file to capture its output
-    with CoqLock():
-        r = sh(["timeout", "1200", "coqc", "-Q", ".", "CCTZ", fn], cwd=COQ)
-    res["log"] = (log[-2000:] if not ok else "") + r.stdout[-6000:]
-    if r.returncode != 0 or not os.path.exists(vo):
-        res["failed"] = list(obligations)
-        return res
-    # Print Assumptions output: sequence of blocks, in file order of 'Print Assumptions X.'
-    src = open(os.path.join(COQ, fn)).read()
-    printed = re.findall(r"Print Assumptions\s+([A-Za-z0-9_']+)\s*\.", src)
-    blocks = re.split(r"(?=Closed under the global context|Axioms:)", r.stdout)
-    blocks = [b for b in blocks if b.startswith("Closed under") or b.startswith("Axioms:")]
-    for name, blk in zip(printed, blocks):
-        if blk.startswith("Closed under"):
-            res["axioms"][name] = []
-        else:
-            res["axioms"][name] = [l.split(":")[0].strip() for l in blk.splitlines()[1:] if l and not l.startswith(" ") and ":" in l]
+    # Properties_<pid>.v, and - for theorems that depend on that file itself - an optional Properties_<pid>_more.v
+    fns = [fn] + (["Properties_%s_more.v" % pid] if os.path.exists(os.path.join(COQ, "Properties_%s_more.v" % pid)) else [])
+    src = ""
+    for f in fns:
+        vo = os.path.join(COQ, f + "o")
+        # force recompile of the property file to capture its output
+        with CoqLock():
+            r = sh(["timeout", "1200", "coqc", "-Q", ".", "CCTZ", f], cwd=COQ)
+        res["log"] += (log[-2000:] if not ok else "") + r.stdout[-6000:]
+        if r.returncode != 0 or not os.path.exists(vo):
+            if f == fn:
+                res["failed"] = list(obligations)
+                return res
+            continue        # the obligations of the second file stay undischarged
+        # Print Assumptions output: sequence of blocks, in file order of 'Print Assumptions X.'
+        fsrc = open(os.path.join(COQ, f)).read()
+        src += fsrc
+        printed = re.findall(r"Print Assumptions\s+([A-Za-z0-9_']+)\s*\.", fsrc)
+        blocks = re.split(r"(?=Closed under the global context|Axioms:)", r.stdout)
+        blocks = [b for b in blocks if b.startswith("Closed under") or b.startswith("Axioms:")]
+        for name, blk in zip(printed, blocks):
+            if blk.startswith("Closed under"):
+                res["axioms"][name] = []
+            else:
+                res["axioms"][name] = [l.split(":")[0].strip() for l in blk.splitlines()[1:] if l and not l.startswith(" ") and ":" in l]
     theorems = set(re.findall(r"(?:Theorem|Lemma|Corollary)\s+([A-Za-z0-9_']+)", src))
     for o in obligations:
         if o in theorems and o in res["axioms"] and res["axioms"][o] == []:
